@@ -1,7 +1,9 @@
 mod c03;
+mod c15;
 mod c18;
 mod core;
 mod rng;
+mod sched;
 
 use crate::core::{Engine, Options, Tier, DEFAULT_SEED};
 use std::path::PathBuf;
@@ -17,6 +19,7 @@ macro_rules! dispatch {
     ($id:expr, $f:ident, $($arg:expr),*) => {
         match $id {
             "C03" => $f(&c03::C03, $($arg),*),
+            "C15" => $f(&c15::C15, $($arg),*),
             "C18" => $f(&c18::C18, $($arg),*),
             other => {
                 eprintln!("HARNESS-ERROR: unknown property {other}");
@@ -44,8 +47,19 @@ fn main() {
     }
     let mut verif_dir = PathBuf::from(std::env::var("VERIF_DIR").unwrap_or_else(|_| "/verif".into()));
     match args[1].as_str() {
+        "debug-pool" => {
+            let p = c15::pool();
+            println!("off_subgroup={} torsion={}", p.off_subgroup.len(), p.torsion.len());
+            for t in &p.torsion {
+                let mut s = p.sigs[0][1].clone();
+                s.aggregate(t);
+                let gts = vec![&p.gts[0][1]];
+                println!("torsion valid={} sum_valid={} verify_gt(sum)={} verify_gt(honest)={}", t.is_valid(), s.is_valid(),
+                    chia_bls::aggregate_verify_gt(&s, gts.clone()), chia_bls::aggregate_verify_gt(&p.sigs[0][1], gts));
+            }
+        }
         "list" => {
-            println!("C03\nC18");
+            println!("C03\nC15\nC18");
         }
         "run" => {
             if args.len() < 3 {
